@@ -108,7 +108,16 @@ IntCases ==
                     [node |-> CUInt(BNMaxU32), expect |-> "reject"],
                     [node |-> CNInt(BNMaxU32), expect |-> "reject"]}}
 
-MC_Cases == SizeCases \cup UnboundedCases \cup IntCases
+\* the type-string limit applies to every entry of the list, whatever its algorithm
+ParamTypeCases ==
+    {SentCase(1, [ReqRich(1, F) EXCEPT !.pubKeyCredParams = <<[alg |-> a, type |-> AsciiPattern(3, n)], ParamOf(ALG_ES256)>>],
+              "limit:param.type-any-alg", F) @@ [expect |-> IF n <= 32 THEN "accept" ELSE "reject"] :
+        a \in {ALG_ES256, ALG_EdDSA, -257, 0, 1}, n \in {0, 31, 32, 33, 64}}
+    \cup {SentCase(1, [ReqRich(1, F) EXCEPT !.pubKeyCredParams = <<ParamOf(ALG_ES256), ParamOf(ALG_EdDSA), [alg |-> a, type |-> AsciiPattern(3, n)]>>],
+              "limit:param.type-after-known", F) @@ [expect |-> IF n <= 32 THEN "accept" ELSE "reject"] :
+        a \in {ALG_ES256, -257}, n \in {32, 33}}
+
+MC_Cases == SizeCases \cup UnboundedCases \cup IntCases \cup ParamTypeCases
 
 (***************************************************************************)
 (* C12 on the model: the decoder's decision agrees with the limits above   *)
